@@ -544,6 +544,7 @@ type SpecSet struct {
 	Ghosts  map[string]*GhostVar
 	Chans   map[string]string
 	Secrets map[string]*SecretField // pkg.Type.field -> functions allowed to read it
+	Guards  []*GuardSpec
 	GlobalChanInvs []chanInvDef // invariants of channels held in struct fields: Name is pkg.Type.field
 	Errors  []string
 }
@@ -554,7 +555,7 @@ func NewSpecSet() *SpecSet {
 
 var clauseKeywords = map[string]bool{"spec": true, "axiom": true, "ghost": true, "func": true, "requires": true, "ensures": true,
 	"modifies": true, "loop": true, "at": true, "maypanic": true, "inline": true, "trusted": true, "pure": true, "check": true,
-	"let": true, "chanmode": true, "chaninv": true, "defines": true, "maintains": true, "thorough": true, "secret": true, "flows": true, "asset": true, "nosafety": true, "noverify": true, "ghostparam": true}
+	"let": true, "chanmode": true, "chaninv": true, "defines": true, "maintains": true, "thorough": true, "secret": true, "flows": true, "asset": true, "nosafety": true, "guarded": true, "noverify": true, "ghostparam": true}
 
 // ReadSpecFile reads //@ lines. pkgPrefix is prepended to `func` keys that are
 // not already qualified (contract files inside a package use short keys).
@@ -654,6 +655,13 @@ func (ss *SpecSet) ReadSpecFile(path, pkgPrefix string) error {
 				}
 			}
 			ss.Secrets[sf.Field] = sf
+		case "guarded":
+			g, err := parseGuarded(rest, pkgPrefix)
+			if err != nil {
+				fail(rc.line, "%v", err)
+				continue
+			}
+			ss.Guards = append(ss.Guards, g)
 		case "asset":
 			as, props, err := parseAssetHead(rest)
 			if err != nil {
